@@ -1656,6 +1656,49 @@ impl Sweep {
     }
 }
 
+/// Accumulates (label, text, token offsets) items and sweeps them in batches (bounded memory).
+pub struct Batch<'d> {
+    items: Vec<(String, String, Vec<usize>)>,
+    detectors: &'d [Detector],
+    mode: Mode,
+    pub total: Sweep,
+    outcomes: BTreeSet<u64>,
+    pub sample: Option<(String, String)>,
+    filter_unique_names: bool,
+}
+
+impl<'d> Batch<'d> {
+    pub fn new(detectors: &'d [Detector], mode: Mode, filter_unique_names: bool) -> Batch<'d> {
+        Batch { items: Vec::new(), detectors, mode, total: Sweep::empty(detectors), outcomes: BTreeSet::new(), sample: None, filter_unique_names }
+    }
+    pub fn push(&mut self, item: (String, String, Vec<usize>)) {
+        self.items.push(item);
+        if self.items.len() >= 100_000 {
+            self.flush();
+        }
+    }
+    pub fn flush(&mut self) {
+        if self.items.is_empty() {
+            return;
+        }
+        let mut items = std::mem::take(&mut self.items);
+        if self.filter_unique_names {
+            let keep = util::par_map(items.len(), |i| unique_state_var_names(&items[i].1));
+            items = items.into_iter().zip(keep).filter(|(_, k)| *k).map(|(x, _)| x).collect();
+        }
+        if self.sample.is_none() && !items.is_empty() {
+            let m = &items[items.len() / 2];
+            self.sample = Some((m.0.clone(), m.1.clone()));
+        }
+        let sw = sweep_texts(&items, self.detectors, self.mode);
+        self.total.merge(sw, &mut self.outcomes);
+    }
+    pub fn finish(mut self) -> (Sweep, Option<(String, String)>) {
+        self.flush();
+        (self.total, self.sample)
+    }
+}
+
 /// sweep the whole corpus of a tier chunk by chunk (bounded memory)
 pub fn sweep_stream(tier: crate::corpus::Tier, detectors: &[Detector], mode: Mode, sample_filter: &dyn Fn(&synth::Prog) -> bool) -> (Sweep, crate::corpus::Summary, Vec<serde_json::Value>) {
     let mut total = Sweep::empty(detectors);
